@@ -4,7 +4,10 @@ use pelite::pe64;
 use pvh::pe::*;
 use pvh::*;
 
-fn gen(rng: &mut Rng, _i: u64) -> String {
+fn gen(rng: &mut Rng, i: u64) -> String {
+	if i % 211 == 17 {
+		return gen_long_string(rng);
+	}
 	let pe64 = rng.chance(1, 2);
 	let file = rng.chance(3, 5);
 	let e_lfanew = *rng.pick(&[0x40u32, 0x80, 0x44, 0xF8]);
@@ -261,6 +264,96 @@ macro_rules! run_queries {
 	}};
 }
 
+/// A NUL-terminated string of 65530..65545 (and 131070..131075) bytes: no terminator search, sentinel scan or length
+/// may be cut off at a 16-bit limit.  One big section of 0xFF bytes, mapped 1:1, NULs planted at the chosen distance.
+fn gen_long_string(rng: &mut Rng) -> String {
+	let pe64 = rng.chance(1, 2);
+	let file = rng.chance(1, 2);
+	let dist: usize = *rng.pick(&[65530usize, 65534, 65535, 65536, 65537, 65545, 131070, 131072]);
+	let start: u32 = 0x1000 + 8 * rng.below(8) as u32;
+	let len = 0x1000 + 0x24000;
+	let mut spec = ImgSpec { pe64, e_lfanew: 0x80, soh: 0x400, soi: len as u32, image_base: if pe64 { 0x1_4000_0000 } else { 0x40_0000 }, nrva: 16, dirs: vec![(0u32, 0u32); 16], opt_size: 0, nsec_field: 1, secs: Vec::new(), checksum: 0, magic: if pe64 { 0x20b } else { 0x10b } };
+	spec.opt_size = spec.std_opt_size();
+	let mut s = Sec { name: [0; 8], va: 0x1000, vs: 0x24000, prd: 0x1000, srd: 0x24000, chars: 0x4000_0040 };
+	s.name[..5].copy_from_slice(b".long");
+	spec.secs.push(s);
+	let at = start as usize + dist;
+	let img = Image { len, fill: 0xFFFF_FFFF, hdr: spec.header_bytes(), pokes: vec![(at, vec![0u8; 8])] };
+	let base = spec.image_base;
+	let qs = vec![format!("cstr:{}", start), format!("vcstr:{}", base + start as u64), format!("sent:{}:1:0", start), format!("sent:{}:2:0", start & !1),
+		format!("sent:{}:4:0", start & !3), format!("sl:{}:{}:1", start, dist + 1), format!("cstr:{}", start + 1)];
+	format!("view fmt={} file={} place=0 {} soh={} soi={} base={} setbase=- secs={} q={}", if pe64 { 64 } else { 32 }, file as u8, img.encode(), spec.soh, spec.soi, spec.image_base, secs_field(&spec.secs), join(&qs, ","))
+}
+
+/// The same rva-based queries through the format-agnostic wrapper (pelite::PeFile / pelite::PeView): every method it
+/// offers must return exactly what the format-specific API returns (same region, same value, same error).
+/// None = a query kind the wrapper has no method for.
+macro_rules! wrap_queries {
+	($w:expr, $qs:expr, $base:expr, $blen:expr) => {{
+		let w = $w;
+		let reg = |p: *const u8, n: usize| -> String {
+			let off = (p as usize).wrapping_sub($base);
+			assert!(off <= $blen && n <= $blen - off, "harness: returned region outside the buffer (wrapper): off={} len={}", off as isize, n);
+			format!("ok:{}:{}", off, n)
+		};
+		let rs = |r: pelite::Result<&[u8]>| -> String { match r { Ok(s) => reg(s.as_ptr(), s.len()), Err(e) => format!("e:{:?}", e) } };
+		let mut out: Vec<Option<String>> = Vec::new();
+		for q in $qs {
+			let p: Vec<&str> = q.split(':').collect();
+			let n = |i: usize| -> u64 { p[i].parse::<u64>().unwrap() };
+			let o = match p[0] {
+				"sl" => Some(rs(w.slice(n(1) as u32, n(2) as usize, n(3) as usize))),
+				"gsb" => Some(match w.section_headers().image().get(n(1) as usize) { Some(sh) => rs(w.get_section_bytes(sh)), None => "none".to_string() }),
+				"derva" => {
+					macro_rules! t { ($t:ty) => {{
+						match w.derva::<$t>(n(1) as u32) { Ok(x) => format!("{}:{}", reg(x as *const $t as *const u8, std::mem::size_of::<$t>()), *x as u64), Err(e) => format!("e:{:?}", e) }
+					}}}
+					Some(match n(2) { 1 => t!(u8), 2 => t!(u16), 4 => t!(u32), _ => t!(u64) })
+				},
+				"copy" => {
+					macro_rules! t { ($t:ty) => {{
+						let r = w.derva_copy::<$t>(n(1) as u32);
+						let mut dest: [$t; 3] = [0; 3];
+						let r2 = w.derva_into(n(1) as u32, &mut dest);
+						let s2 = match r2 { Ok(()) => format!("ok:{}:{}:{}", dest[0], dest[1], dest[2]), Err(e) => format!("e:{:?}", e) };
+						match r { Ok(x) => format!("ok:{}/{}", x as u64, s2), Err(e) => format!("e:{:?}/{}", e, s2) }
+					}}}
+					Some(match n(2) { 1 => t!(u8), 2 => t!(u16), 4 => t!(u32), _ => t!(u64) })
+				},
+				"arr" => {
+					macro_rules! t { ($t:ty) => {{
+						match w.derva_slice::<$t>(n(1) as u32, n(3) as usize) { Ok(x) => reg(x.as_ptr() as *const u8, std::mem::size_of_val(x)), Err(e) => format!("e:{:?}", e) }
+					}}}
+					Some(match n(2) { 1 => t!(u8), 2 => t!(u16), 4 => t!(u32), _ => t!(u64) })
+				},
+				"arrx" => {
+					macro_rules! t { ($t:ty) => {{
+						match w.derva_slice::<$t>(n(1) as u32, n(4) as usize) { Ok(x) => reg(x.as_ptr() as *const u8, std::mem::size_of_val(x)), Err(e) => format!("e:{:?}", e) }
+					}}}
+					Some(match n(2) { 6 => t!([u16; 3]), 12 => t!([u32; 3]), 5 => t!([u8; 5]), _ => t!([u64; 3]) })
+				},
+				"sent" => {
+					macro_rules! t { ($t:ty) => {{
+						match w.derva_slice_s::<$t>(n(1) as u32, n(3) as $t) { Ok(x) => reg(x.as_ptr() as *const u8, std::mem::size_of_val(x)), Err(e) => format!("e:{:?}", e) }
+					}}}
+					Some(match n(2) { 1 => t!(u8), 2 => t!(u16), 4 => t!(u32), _ => t!(u64) })
+				},
+				"cstr" => Some(match w.derva_c_str(n(1) as u32) { Ok(s) => reg(s.c_str().as_ptr(), s.c_str().len()), Err(e) => format!("e:{:?}", e) }),
+				_ => None,
+			};
+			out.push(o);
+		}
+		out
+	}};
+}
+fn cross_check(kind: &str, qs: &[&str], specific: &[String], wrapped: &[Option<String>]) {
+	for (i, w) in wrapped.iter().enumerate() {
+		if let Some(w) = w {
+			assert!(*w == specific[i], "harness: the format-agnostic {} differs from the format-specific API on query {}: wrapper {} specific {}", kind, qs[i], w, specific[i]);
+		}
+	}
+}
+
 fn run(case: &str) -> String {
 	let img = Image::decode(case);
 	let bytes = img.bytes();
@@ -284,6 +377,13 @@ fn run(case: &str) -> String {
 			Err(e) => return format!("!ctor {:?}", e),
 		},
 	};
+	// the wrapper selects the parser by the optional-header magic; a view that was rebased has no wrapper twin
+	if setbase == "-" {
+		if file {
+			if let Ok(w) = pelite::PeFile::from_bytes(b) { let wq = wrap_queries!(w, qs.iter(), base, blen); cross_check("PeFile", &qs, &out, &wq); }
+		}
+		else if let Ok(w) = pelite::PeView::from_bytes(b) { let wq = wrap_queries!(w, qs.iter(), base, blen); cross_check("PeView", &qs, &out, &wq); }
+	}
 	format!("r={}", out.join(","))
 }
 
